@@ -9,6 +9,7 @@ import (
 	"encoding/json"
 	"fmt"
 	"os"
+	"os/exec"
 
 	"verif/internal/props"
 	"verif/internal/rep"
@@ -39,6 +40,18 @@ func main() {
 		if err := json.Unmarshal(b, &doc); err != nil {
 			fmt.Println(err)
 			os.Exit(2)
+		}
+		var space string
+		_ = json.Unmarshal(doc["space"], &space)
+		if space == "write-monitor" {
+			// found by the write-monitor stage, which runs in the instrumented build
+			cmd := exec.Command("./c18.sh", "watch-replay", os.Args[2])
+			cmd.Dir = rep.Root
+			cmd.Stdout, cmd.Stderr = os.Stdout, os.Stderr
+			if err := cmd.Run(); err != nil {
+				os.Exit(1)
+			}
+			return
 		}
 		if err := props.Replay(doc); err != nil {
 			fmt.Println(err)
